@@ -109,6 +109,22 @@ func genC11(c *Ctx) {
 					c.Emit("parsemove " + hexOf(short+s))
 					c.Emit("parsemove " + hexOf(long+s))
 				}
+				// longer suffixes (the theorem is for any length): the longest annotations PTN writes
+				// and a few random ones of length 3..9 per move
+				for _, s := range []string{"*''!!", "*'??", "''!?", "*''?!", "'!!", "*!?"} {
+					c.Emit("parsemove " + hexOf(short+s))
+					c.Emit("parsemove " + hexOf(long+s))
+				}
+				for j := 0; j < 3; j++ {
+					n := 3 + c.R.Intn(7)
+					b := make([]byte, n)
+					for q := range b {
+						b[q] = annotChars[c.R.Intn(len(annotChars))]
+					}
+					c.Emit("parsemove " + hexOf(short+string(b)))
+					c.Emit("parsemove " + hexOf(long+string(b)))
+					c.Count("suffix.len" + strconv.Itoa(n))
+				}
 			}
 		}
 	}
